@@ -6,11 +6,13 @@
 
 using namespace vp;
 
-enum { OP_DIV, OP_QUOT, OP_REM, OP_QUOT_A, OP_REM_A, OP_COUNT };
+enum { OP_DIV, OP_QUOT, OP_REM, OP_QUOT_A, OP_REM_A, OP_SELF_Q, OP_SELF_R, OP_CHAIN_QQ, OP_CHAIN_QR, OP_COUNT };
 // v0 dividend, v1 divisor; s0 = bit set of lanes that get a zero divisor (wide vectors), s1 = lanes that get MIN/-1
 static const VpOp OPS[] = {
     {"div", {VK_INT, VK_INT_REL}, {SK_RAW, SK_RAW}, 3}, {"operator/", {VK_INT, VK_INT_REL}, {SK_RAW, SK_RAW}, 2}, {"operator%", {VK_INT, VK_INT_REL}, {SK_RAW, SK_RAW}, 2},
     {"operator/=", {VK_INT, VK_INT_REL}, {SK_RAW, SK_RAW}, 1}, {"operator%=", {VK_INT, VK_INT_REL}, {SK_RAW, SK_RAW}, 1},
+    // usage forms: the same object on both sides (x /= x, x %= x) and the returned reference used as an lvalue ((x /= y) /= y, (x /= y) %= y)
+    {"x /= x", {VK_INT}, {SK_RAW, SK_RAW}, 1}, {"x %= x", {VK_INT}, {SK_RAW, SK_RAW}, 1}, {"(x /= y) /= y", {VK_INT, VK_INT_REL}, {SK_RAW, SK_RAW}, 1}, {"(x /= y) %= y", {VK_INT, VK_INT_REL}, {SK_RAW, SK_RAW}, 1},
 };
 enum { CL_QUOT_GE2, CL_DIV_PM1, CL_DIV_MIN, CL_DIV_POW2, CL_ZERO_NEIGHBOUR, CL_MINM1_NEIGHBOUR, CL_NEG_OPERAND, CL_X_LT_Y, CL_FULL_LEN_QUOT, CL_ORDINARY };
 static const char* const CLASSES[] = {"abs_quotient_ge_2", "divisor_plus_minus_1", "divisor_MIN", "divisor_power_of_two", "zero_divisor_in_other_lane",
@@ -34,22 +36,30 @@ template<class V> static void run(const VpCase* c, VpOutcome* o) {
     bool any_minm1 = false, any_zero = false;
     unsigned ncmp = 0;
     for (unsigned i = 0; i < W; ++i) {
-        x[i] = c->v[0][i] & m; y[i] = c->v[1][i] & m; cmp[i] = 1;
+        x[i] = c->v[0][i] & m; y[i] = ((c->op == OP_SELF_Q || c->op == OP_SELF_R) ? c->v[0][i] : c->v[1][i]) & m; cmp[i] = 1;
         bool zero_lane = W > 1 && ((uint64_t)c->s[0] >> (i % 64)) & 1;
         bool mm_lane = W > 1 && elem<T>::is_signed && (((uint64_t)c->s[1] >> (i % 64)) & 1) && (((uint64_t)c->s[1] >> 60) == 0xF);
         if (zero_lane) y[i] = 0;
-        if (mm_lane && !zero_lane) { x[i] = MINP; y[i] = m; }
+        if (mm_lane && !zero_lane && c->op < OP_SELF_Q) { x[i] = MINP; y[i] = m; }
+        if (zero_lane && (c->op == OP_SELF_Q || c->op == OP_SELF_R)) x[i] = 0;
         if (y[i] == 0) { if (W == 1) y[i] = 1; else { cmp[i] = 0; any_zero = true; } }
         if (elem<T>::is_signed && x[i] == MINP && y[i] == m) { if (W == 1) y[i] = 1; else { cmp[i] = 0; any_minm1 = true; } }
         ncmp += cmp[i];
     }
     if (W > 1 && ncmp == 0) { y[0] = 3; cmp[0] = 1; if (elem<T>::is_signed && x[0] == MINP) x[0] = 7; }
+    if (c->op == OP_SELF_Q || c->op == OP_SELF_R)      // the divisor is the dividend object itself: keep the two arrays identical
+        for (unsigned i = 0; i < W; ++i) { if (W == 1 && x[i] == 0) x[i] = 1; if (W > 1 && ncmp == 0 && i == 0) x[0] = 3; y[i] = x[i]; cmp[i] = x[i] != 0; }
     bool nt = false;
     for (unsigned i = 0; i < W; ++i) {
         if (!cmp[i]) { eq[i] = er[i] = 0; continue; }
         i128 a = elem<T>::is_signed ? (i128)elem<T>::sval(x[i]) : (i128)x[i];
         i128 b = elem<T>::is_signed ? (i128)elem<T>::sval(y[i]) : (i128)y[i];
         i128 q = a / b, r = a % b;
+        if (c->op == OP_CHAIN_QQ || c->op == OP_CHAIN_QR) {
+            // the intermediate quotient as the element type holds it, divided again (MIN / -1 cannot arise: |q| = MIN needs y = 1)
+            i128 q1 = elem<T>::is_signed ? (i128)elem<T>::sval((uint64_t)q & m) : (i128)((uint64_t)q & m);
+            r = q1 % b; q = q1 / b;
+        }
         eq[i] = (uint64_t)q & m; er[i] = (uint64_t)r & m;
         i128 aq = q < 0 ? -q : q, ab = b < 0 ? -b : b;
         auto cls = [&](unsigned k) { o->classes |= 1u << k; nt = true; };
@@ -71,13 +81,17 @@ template<class V> static void run(const VpCase* c, VpOutcome* o) {
     case OP_QUOT: rd<V>(a / b, gq); break;
     case OP_REM: rd<V>(a % b, gr); break;
     case OP_QUOT_A: { V r = a; r /= b; rd<V>(r, gq); break; }
-    default: { V r = a; r %= b; rd<V>(r, gr); break; }
+    case OP_REM_A: { V r = a; r %= b; rd<V>(r, gr); break; }
+    case OP_SELF_Q: { V r = a; r /= r; rd<V>(r, gq); break; }
+    case OP_SELF_R: { V r = a; r %= r; rd<V>(r, gr); break; }
+    case OP_CHAIN_QQ: { V r = a; (r /= b) /= b; rd<V>(r, gq); break; }
+    default: { V r = a; (r /= b) %= b; rd<V>(r, gr); break; }
     }
     o->tag[0] = 0;
     const char* zt = any_zero ? (any_minm1 ? ":zero+minm1_neighbour" : ":zero_neighbour") : (any_minm1 ? ":minm1_neighbour" : "");
     char tag[96];
-    if (c->op == OP_DIV || c->op == OP_QUOT || c->op == OP_QUOT_A) { std::snprintf(tag, sizeof tag, "quot%s", zt); if (!cmp_lanes(o, W, eq, gq, cmp, tag, "quotient")) return; }
-    if (c->op == OP_DIV || c->op == OP_REM || c->op == OP_REM_A) { std::snprintf(tag, sizeof tag, "rem%s", zt); if (!cmp_lanes(o, W, er, gr, cmp, tag, "remainder")) return; }
+    if (c->op == OP_DIV || c->op == OP_QUOT || c->op == OP_QUOT_A || c->op == OP_SELF_Q || c->op == OP_CHAIN_QQ) { std::snprintf(tag, sizeof tag, "quot%s", zt); if (!cmp_lanes(o, W, eq, gq, cmp, tag, "quotient")) return; }
+    if (c->op == OP_DIV || c->op == OP_REM || c->op == OP_REM_A || c->op == OP_SELF_R || c->op == OP_CHAIN_QR) { std::snprintf(tag, sizeof tag, "rem%s", zt); if (!cmp_lanes(o, W, er, gr, cmp, tag, "remainder")) return; }
     if (c->op == OP_DIV) {
         // relation independent of the reference division: quot*y + rem == x, |rem| < |y|, sign(rem) == sign(x) or rem == 0
         for (unsigned i = 0; i < W; ++i) {
